@@ -1,9 +1,14 @@
 #!/bin/sh
-# usage: seedtest.sh <seed-id> [property]  -- apply the seeded change to /repo, run the quick check, undo
+# usage: seedtest.sh <seed-id> [property]
+# Applies the seeded change in a scratch worktree (outside /repo and /verif), runs the quick check of the
+# property against THAT tree (VERIF_REPO) with evidence/replays redirected (VERIF_OUT), removes the worktree.
 id="$1"; pid="${2:-$(echo $id | cut -d- -f1)}"
+d="/tmp/wt/st-$id-$pid-$$"; out="/tmp/wt/out-$id-$pid-$$"
+/verif/tools/mkwt.sh "$d" >/dev/null || exit 3
+git -C "$d" apply "/verif/seeded/$id/patch.diff" || { git -C /repo worktree remove --force "$d"; echo "$id: patch does not apply to current /repo HEAD"; exit 2; }
+mkdir -p "$out"
 cd /verif
-git -C /repo diff --quiet || { echo "/repo is dirty"; exit 3; }
-git -C /repo apply "/verif/seeded/$id/patch.diff" || exit 2
-./check "$pid" --tier quick > "/tmp/seedtest-$id-$pid.log" 2>&1; rc=$?
-git -C /repo checkout -- .
-echo "$id on $pid: exit=$rc $(grep -c '^VIOLATION' /tmp/seedtest-$id-$pid.log) violation line(s): $(grep '^VIOLATION' /tmp/seedtest-$id-$pid.log | head -2 | cut -c1-160 | tr '\n' ' ')"
+VERIF_REPO="$d" VERIF_OUT="$out" ./check "$pid" --tier quick > "$out/log" 2>&1; rc=$?
+echo "$id on $pid: exit=$rc; $(grep -c '^VIOLATION' $out/log) VIOLATION line(s): $(grep '^VIOLATION' $out/log | head -3 | sed 's/.*replay=replays.//' | cut -c1-110 | tr '\n' ' ')"
+[ -n "$KEEP" ] && echo "kept: $out" || rm -rf "$out"
+git -C /repo worktree remove --force "$d"
